@@ -475,13 +475,13 @@ def rejected_then_cancel_family(thin: int = 1) -> List[dict]:
         gate k ; settle ; drain"""
     cases: List[dict] = []
     w = {"script": [["wait"]], "fname": "w"}
-    for size in (1, 2):
+    for size, gn in ((1, [0, 1]), (2, [0, 1]), (1, [6, 0])):       # [6, 0] is the empty string: a name like any other
         for ka in ("apply", "map"):
-            a = {"op": "spawn", "pool": 0, "kind": ka, "place": "inline", "gname": [0, 1], "worker": dict(w)}
+            a = {"op": "spawn", "pool": 0, "kind": ka, "place": "inline", "gname": list(gn), "worker": dict(w)}
             a.update({"num": 4} if ka == "apply" else {"n": 4, "nc": 2})
             rejected: List[List[dict]] = []
             for kb in ("apply", "map", "starmap", "doublestarmap"):
-                b = {"op": "spawn", "pool": 0, "kind": kb, "place": "inline", "gname": [0, 1], "worker": dict(w)}
+                b = {"op": "spawn", "pool": 0, "kind": kb, "place": "inline", "gname": list(gn), "worker": dict(w)}
                 b.update({"num": 2} if kb == "apply" else {"n": 2, "nc": 1})
                 rejected.append([b])                                                                        # duplicate name
                 for fk in (0, 5):
